@@ -62,6 +62,8 @@ pub fn make_compressor(s: &Script) -> CompressorOxide {
     match s.c("ctor") {
         1 => CompressorOxide::new(create_comp_flags_from_zip_params(level as i32, if zlib { wb as i32 } else { -(wb as i32) }, strategy as i32)),
         2 => CompressorOxide::default(),
+        // what the C shim does: explicit running checksum also for raw streams
+        4 => CompressorOxide::new(miniz_oxide::deflate::core::deflate_flags::TDEFL_COMPUTE_ADLER32 | create_comp_flags_from_zip_params(level as i32, if zlib { wb as i32 } else { -(wb as i32) }, strategy as i32)),
         3 => {
             let l = match level {
                 0 => CompressionLevel::NoCompression,
@@ -106,7 +108,7 @@ pub fn effective(s: &Script) -> Effective {
             strategy = 0;
             wb = 15;
         }
-        1 => {
+        1 | 4 => {
             if level < 0 {
                 level = 6;
             }
@@ -144,6 +146,14 @@ pub fn run_pipe(s: &Script, plain: &[u8], ops: &[Vec<i64>], st: &mut Stats) -> R
     let putfail = s.c("putfail");
     let cp: &str = &s.prop;
     let mut d = make_compressor(s);
+    if s.c("pre_reset") != 0 {
+        // the compressor has been used for an earlier (abandoned or finished) stream and was reset
+        let junk = &plain[..plain.len().min(s.c("pre_reset") as usize)];
+        let mut tmp = vec![0u8; junk.len() + 400];
+        let _ = compress(&mut d, junk, &mut tmp, if s.c("pre_reset") % 2 == 0 { TDEFLFlush::Finish } else { TDEFLFlush::Sync });
+        d.reset();
+        st.inc("probe.compressor_reused_after_reset");
+    }
     let zlib_fmt = d.data_format() == DataFormat::Zlib;
     let adler_on = zlib_fmt || (d.flags() as u32 & miniz_oxide::deflate::core::deflate_flags::TDEFL_COMPUTE_ADLER32) != 0;
     let n = plain.len();
